@@ -189,9 +189,11 @@ class Program:
         self.records = {}
         self.globals = {}        # name -> [global dict]
         self.macros = {}         # name -> body
+        self.flags = set()       # object-like macros defined with an empty body (configuration switches)
         self.enums = {}
         self.fdecls = {}
         for tu in tus:
+            self.flags.update(tu.get("flags", []))
             for m in tu.get("macros", []):
                 self.macros.setdefault(m["n"], m["b"])
             for en in tu.get("enums", []):
@@ -307,6 +309,10 @@ class Program:
             return int(eval(" ".join(out).replace("/", "//"), {"__builtins__": {}}, {}))
         except Exception:
             return None
+
+    def defined(self, name):
+        """is the object-like macro defined in some translation unit (with or without a value)?"""
+        return name in self.flags or name in self.macros
 
     def const_names(self, prefix):
         """{name: value} for all evaluable constants with the given prefix."""
